@@ -552,11 +552,19 @@ def _coerce(v, t):
     return v
 
 
+_VALUE_WRAPPERS = ('ImplicitCastExpr', 'ParenExpr', 'ExprWithCleanups', 'MaterializeTemporaryExpr', 'CXXBindTemporaryExpr', 'ConstantExpr',
+                   'SubstNonTypeTemplateParmExpr', 'FullExpr', 'CStyleCastExpr', 'CXXStaticCastExpr', 'CXXFunctionalCastExpr')
+
+
 def ceval(n, bind, defs=None, depth=0):
     """bind: callable(node) -> number or None for leaves it knows (variables, calls);  defs: var_id -> defining expression"""
     if depth > 60:
         raise Unknown('too deep')
-    s = n.strip()
+    # value conversions are part of the arithmetic (int -> unsigned long wraps, double -> int truncates): evaluate the operand and
+    # coerce to the type of every cast layer instead of looking through them
+    if n.k in _VALUE_WRAPPERS and n.c:
+        return _coerce(ceval(n.c[0], bind, defs, depth + 1), n.type)
+    s = n
     b = bind(s)
     if b is not None:
         return _coerce(b, s.type)
